@@ -31,6 +31,8 @@ def seed():
 
 
 _built = False
+_ambient = 0
+_amb_lock = threading.Lock()
 
 
 def build():
@@ -120,7 +122,18 @@ def read_events(path):
 def run_parser(datadir, cb, dump=None, coin=None, start=None, end=None, verify=False, env=None, trace=None,
                fsize=None, nofile=None, timeout=60, threads=None, verbose=0, read_files=True, extra_args=(), mkdump=True,
                abort_at=None, skip=None):
-    """run the hooked binary; cb in csvdump|unspentcsvdump|balances|simplestats|opreturn"""
+    """run the hooked binary; cb in csvdump|unspentcsvdump|balances|simplestats|opreturn.
+    Ambient variation: options that must not influence any result (verbosity, size of the thread pool) are varied from run
+    to run unless the caller fixes them, so that every check also exercises them."""
+    global _ambient
+    with _amb_lock:
+        _ambient += 1
+        amb = _ambient
+    if os.environ.get('RBP_VERIF_NO_AMBIENT') is None:
+        if verbose == 0 and cb != 'opreturn':
+            verbose = (0, 0, 0, 1, 0, 0, 2)[amb % 7]
+        if threads is None:
+            threads = (None, None, 1, None, 3, None)[amb % 6]
     args = [BIN, '-d', datadir]
     if coin:
         args += ['-c', coin]
